@@ -146,6 +146,29 @@ def shape_records(tag, j, g, rng):
                         [inv(x) for x in va], [bool(va.isdisjoint(vb))], [len(va)]]
             r, res = _do(f)
             add("view_algebra", res, r, st=st, k=k, s=A, ids=B)
+    # tensor times same vector (ttsv1 / ttsv2) against the blow-up definition of the adjacency tensor
+    if mem and all(len(m) >= 1 for m in mem) and max(len(m) for m in mem) >= 2:
+        import contextlib
+        import io
+
+        import numpy as np
+
+        pos = {n: k for k, n in enumerate(st["nodes"])}
+        pm = [[pos[x] for x in m] for m in mem]
+        rk, nn = max(len(m) for m in pm), len(pos)
+        for _ in range(2):
+            a = [rng.choice([1, 1, 2, 3]) for _ in range(nn)]
+            if rng.random() < 0.5:  # members in another order: the result must not depend on it
+                pm = [rng.sample(m, len(m)) for m in pm]
+            edd = {k: list(m) for k, m in enumerate(pm)}
+            ndd = {i: [k for k, m in edd.items() if i in m] for i in range(nn)}
+            av = np.array(a, dtype=float)
+            with contextlib.redirect_stdout(io.StringIO()):
+                r, res = _do(lambda: [frac(x) for x in _tensor.ttsv1(ndd, edd, rk, av)])
+                add("ttsv1", res, r, mem=pm, n=nn, k=rk, s=a)
+                r, res = _do(lambda: [[frac(x) for x in row] for row in
+                                      _tensor.ttsv2(_tensor.pairwise_incidence(edd, rk), edd, rk, av, nn).toarray()])
+                add("ttsv2", res, r, mem=pm, n=nn, k=rk, s=a)
     # the network object as a container, and user-defined statistics
     def cont():
         probe = list(st["nodes"][:2]) + [77]
@@ -222,6 +245,18 @@ def run(tier, seed_):
     log(f"[X01] trace validation: {len(recs)} records, {len(bad)} with verdicts ({t():.0f}s)")
     byrid = {r["rid"]: r for r in recs}
     seen = set()
+    known = [k for k in common.load_known() if k["property"] == "X01" and k.get("status") == "open"]
+    from collections import Counter
+
+    hits = Counter()
+    for rid, cl in list(bad.items()):
+        kf = next((k for k in known if all(c == k["clause"] for c in cl)), None)
+        if kf:
+            hits[kf["id"]] += 1
+            del bad[rid]
+    for k in known:
+        if hits[k["id"]]:
+            print(f"KNOWN-FINDING: property=X01 {k['id']} {k['what']} (hit {hits[k['id']]}x)")
     for rid, cl in bad.items():
         key = tuple(cl)
         if key in seen:
@@ -242,7 +277,5 @@ def run(tier, seed_):
         m["out"] = m["out"][:-1]
         if "X01:powerset" not in common.validate_records([m], "TraceUtils").get("selftest", []):
             raise common.MachineryError("X01 self-test did not fire")
-    from collections import Counter
-
     log(f"[X01] per function: {dict(Counter(r['fn'] for r in recs))}")
     return 1 if bad else 0
